@@ -377,6 +377,13 @@ func c02NoNetKinds(c *Ctx, cs *Census) map[string]bool {
 			push(reg.CheckApplies)
 		}
 	}
+	// the framework's own CRL / OCSP path (life-cycle, configuration, result loop)
+	for _, m := range [][3]string{{"lint", "RevocationListLint", "Execute"}, {"lint", "OcspResponseLint", "Execute"}, {"", "ResultSet", "executeRevocationList"}, {"", "ResultSet", "executeOcspResponse"}} {
+		push(c.MethodMaybe(m[0], m[1], m[2]))
+	}
+	for _, fn := range []string{"LintRevocationListEx", "LintOcspResponseEx"} {
+		push(c.FuncMaybe("", fn))
+	}
 	for len(stack) > 0 {
 		f := stack[len(stack)-1]
 		stack = stack[:len(stack)-1]
@@ -596,6 +603,9 @@ func c02SSA(c *Ctx, cs *Census, reach map[*ssa.Function]bool) []*panicSite {
 			switch x := in.(type) {
 			case *ssa.TypeAssert:
 				if x.CommaOk {
+					if s := okIgnoredDeref(f, x, posStr); s != nil {
+						out = append(out, s)
+					}
 					return
 				}
 				s := &panicSite{class: "assert", fn: fname(f), expr: apath(x.X) + ".(" + shortType(x.AssertedType) + ")", pos: x.Pos(), posStr: posStr,
@@ -916,6 +926,22 @@ func checkWitness(c *Ctx, cs *Census, wit string, site *panicSite, auto *c02Auto
 		}
 		return ""
 	}
+	if strings.HasPrefix(wit, "unreachable-from-lints ") {
+		// unreachable-from-lints <pkg> <func>: no CheckApplies / Execute of a registered
+		// lint reaches <func> through static calls, closures or function values
+		f := strings.Fields(strings.TrimPrefix(wit, "unreachable-from-lints "))
+		if len(f) != 2 {
+			return "malformed witness: " + wit
+		}
+		fn := c.FuncMaybe(f[0], f[1])
+		if fn == nil {
+			return "function " + f[0] + "." + f[1] + " not found"
+		}
+		if staticReach(c, cs)[fn] {
+			return f[0] + "." + f[1] + " is now reachable from a lint method: the panic is live for parser-accepted input"
+		}
+		return ""
+	}
 	if strings.HasPrefix(wit, "same-arg-as ") {
 		// same-arg-as <callee>: the site is a call whose first argument is the very
 		// value (same SSA value or same access path) passed first to a call of
@@ -1208,4 +1234,60 @@ func callersOf(c *Ctx) map[*ssa.Function][]*ssa.Call {
 		})
 	}
 	return callersMemo
+}
+
+// okIgnoredDeref: P6' — `p, _ := v.(*T)` (comma-ok assertion whose ok is never
+// looked at) where p, nil when the assertion fails, is then dereferenced or used
+// as a method receiver. Discharged only by a nil test of p dominating every use.
+func okIgnoredDeref(f *ssa.Function, x *ssa.TypeAssert, posStr string) *panicSite {
+	if !x.CommaOk {
+		return nil
+	}
+	if _, isPtr := x.AssertedType.Underlying().(*types.Pointer); !isPtr {
+		return nil
+	}
+	var ptr *ssa.Extract
+	okUsed := false
+	for _, ref := range *x.Referrers() {
+		ex, ok := ref.(*ssa.Extract)
+		if !ok {
+			continue
+		}
+		if ex.Index == 0 {
+			ptr = ex
+		}
+		if ex.Index == 1 && len(*ex.Referrers()) > 0 {
+			okUsed = true
+		}
+	}
+	if okUsed || ptr == nil {
+		return nil
+	}
+	var uses []ssa.Instruction
+	uses = append(uses, derefsOf(ptr)...)
+	for _, ref := range *ptr.Referrers() {
+		if call, ok := ref.(ssa.CallInstruction); ok {
+			cc := call.Common()
+			if !cc.IsInvoke() && len(cc.Args) > 0 && cc.Args[0] == ssa.Value(ptr) {
+				if callee := cc.StaticCallee(); callee != nil && callee.Signature.Recv() != nil {
+					uses = append(uses, call)
+				}
+			}
+		}
+	}
+	if len(uses) == 0 {
+		return nil
+	}
+	s := &panicSite{class: "err-ignored", fn: fname(f), expr: apath(x.X) + ".(" + shortType(x.AssertedType) + "),_→deref", pos: x.Pos(), posStr: posStr,
+		detail: "the ok of the assertion " + apath(x.X) + ".(" + shortType(x.AssertedType) + ") is discarded and its pointer result (nil when the assertion fails) is dereferenced / used as a method receiver in " + fname(f)}
+	guarded := true
+	for _, u := range uses {
+		if !guardedBy(u.Block(), ptr, token.NEQ) {
+			guarded = false
+		}
+	}
+	if guarded {
+		s.how = "every use is dominated by a nil test of the result"
+	}
+	return s
 }
